@@ -251,7 +251,11 @@ tzm_close(tzmap_t m)
 DEFUN const char*
 tzm_find(tzmap_t m, const char *mname)
 {
-/* lookup zname for MNAME */
+/* lookup zname for MNAME
+ * the table of mapped names consists of entries
+ *   NAME \0-padded to the next znoff_t boundary (possibly not at all)
+ *   znoff_t offset of the zone name << 8U, begins with a \0 byte
+ * in ascending order of NAME */
 	const char *const lo = tzm_mnames(m);
 	const size_t msz = tzm_mname_size(m);
 	const char *const hi = lo + msz - msz % sizeof(znoff_t);
@@ -263,62 +267,62 @@ tzm_find(tzmap_t m, const char *mname)
 		/* not a single entry */
 		return NULL;
 	}
+	/* EP is the last entry's offset */
 	ep = sp + msz / sizeof(*sp) - 1U;
 
-	/* do a bisection now, never leaving [LO, HI) */
-	do {
-		const znoff_t *const osp = sp, *const oep = ep;
+	/* do a bisection now, never leaving [LO, HI),
+	 * SP is the beginning of an entry and EP the offset of an entry */
+	while (sp < ep) {
 		const char *mp = mname;
 		const char *tp;
 		const char *p;
+		const znoff_t *op;
 
 		tp = (const char*)(sp + (ep - sp) / 2U);
 		if (!*tp) {
-			/* fast forward to the next entry */
-			tp += sizeof(*sp);
-		} else {
-			while (tp > lo && tp[-1] != '\0') {
-				/* rewind to beginning */
+			/* padding or offset, rewind to the end of the name */
+			while (tp > lo && tp[-1] == '\0') {
 				tp--;
 			}
 		}
-		if (UNLIKELY(tp >= hi)) {
-			break;
+		while (tp > lo && tp[-1] != '\0') {
+			/* rewind to beginning */
+			tp--;
 		}
 		/* store tp again */
 		p = tp;
 		/* now unroll a strcmp */
 		for (; *mp && tp < hi && *mp == *tp; mp++, tp++);
 		if (UNLIKELY(tp >= hi)) {
-			/* unterminated key, the file is broken */
+			/* unterminated name, the file is broken */
 			break;
 		} else if (*mp - *tp < 0) {
 			/* use lower half */
-			ep = (const znoff_t*)p - 1U;
-		} else {
-			/* forward to the next znoff_t alignment */
-			const znoff_t *op =
-				(const znoff_t*)ALIGN_TO(znoff_t, tp - 1U) + 1U;
-
-			if (UNLIKELY((const char*)(op + 1U) > hi)) {
-				break;
-			} else if (*mp - *tp > 0) {
-				/* use upper half */
-				sp = op + 1U;
-			} else if (LIKELY((be32toh(*op) >> 8U) <
-					  tzm_zname_size(m))) {
-				/* found it */
-				return zns + (be32toh(*op) >> 8U);
-			} else {
-				/* points outside the zone names */
+			if (UNLIKELY((const znoff_t*)p - 1U >= ep)) {
+				/* no progress, the file is broken */
 				break;
 			}
+			ep = (const znoff_t*)p - 1U;
+			continue;
 		}
-		if (UNLIKELY(sp <= osp && ep >= oep)) {
-			/* no progress, the file is broken */
+		/* forward to this entry's offset, the znoff_t after the one
+		 * with the name's last character */
+		for (; tp < hi && *tp; tp++);
+		op = (const znoff_t*)ALIGN_TO(znoff_t, tp - 1U) + 1U;
+		if (UNLIKELY((const char*)(op + 1U) > hi || op < sp)) {
+			/* the file is broken */
+			break;
+		} else if (*mp) {
+			/* use upper half */
+			sp = op + 1U;
+		} else if (LIKELY((be32toh(*op) >> 8U) < tzm_zname_size(m))) {
+			/* found it */
+			return zns + (be32toh(*op) >> 8U);
+		} else {
+			/* points outside the zone names */
 			break;
 		}
-	} while (sp < ep);
+	}
 	return NULL;
 }
 
